@@ -145,6 +145,8 @@ def relevantKinds (m : String) : List Err :=
   else if m == "DeleteObject" then [.noSuchBucket, .preconditionFailed]
   else if m == "CompleteMultipartUpload" then [.noSuchBucket, .noSuchKey, .invalidPart, .invalidPartOrder, .preconditionFailed]
   else if m == "AppendObject" then [.noSuchBucket, .noSuchKey, .invalidWriteOffset]
+  else if m == "GetObjectTagging" || m == "PutObjectTagging" || m == "DeleteObjectTagging" || m == "CopyObject" then
+    [.noSuchBucket, .noSuchKey, .methodNotAllowed]
   else [.noSuchBucket, .noSuchKey]
 
 end Pithos.S3Client
